@@ -53,7 +53,7 @@ STRENGTHENED = {
     'C09-B3': 'round 3; caught by C09 as it stood',
     'C10-A3': 'round 3; caught by C10 as it stood (exact ties under around)',
     'C10-B3': 'round 3; missed by C10 (sharing shows only after a later indexed write); caught by C20 once equal() / set_val(fxp) were among its derivation routes',
-    'C11-A3': 'round 3; MISSED: needs operands that are not C-contiguous (x.T, Fortran-ordered input); the overlay does not model memory order (ravel(order="K")), not built in this round',
+    'C11-A3': 'round 3; initially missed by C11 (C-contiguous operands only): the overlay now models memory layout (order-aware ravel / flatten / copy, layout-preserving element-wise results) and C11 renders the .T of a 2-D object (AGE route transposed)',
     'C11-B3': 'round 3; harness error only (exit 2, paths not encoded: format of a possibly negative integer): hex() of a signed 63-bit word raises OverflowError in the changed tree; no VIOLATION line',
     'C12-A3': 'round 3; initially missed by C12: resize(dtype=...) of an object that already has the requested sizes; the new row also exposed a genuine defect (F-C12-wide-int-valued-resize, fixed)',
     'C12-B3': 'round 3; caught by C12 as it stood',
@@ -61,7 +61,7 @@ STRENGTHENED = {
     'C13-B3': 'round 3; harness error only (exit 2: np.nditer is not modelled): bitwise operators on arrays that are not C-contiguous; no VIOLATION line',
     'C14-A3': 'round 3; initially missed by C14 (fresh operands): arrays with the "inplace" history (shifted before, then written element by element); the history warms every operator with zeros',
     'C14-B3': 'round 3; caught by C14 as it stood',
-    'C15-A3': 'round 3; MISSED: cumprod(axis=None) of a column-major operand; the overlay does not model memory order',
+    'C15-A3': 'round 3; initially missed by C15: memory layout modelled in the overlay; flattening reductions (cumprod, cumsum, sum, prod, max, sort) on the .T of a 2-D object',
     'C15-B3': 'round 3; initially missed by C15 (clip bounds were in-range codes, and the quick sample rarely contained an unsigned clip): bounds now reach three ranges beyond the format on either side and an unsigned clip is always run; reported through the concrete probe of the un-encoded path (float -> uint64 cast of a negative bound)',
     'C16-A3': 'round 3; caught by C16 as it stood',
     'C16-B3': 'round 3; caught by C16 as it stood',
